@@ -6,6 +6,7 @@ buffers; every input is decoded by the compiled codec inside an AddressSanitizer
 (vf.asan_worker) and by the pure-Python codec in-process, with and without validate_crc().
 """
 import atexit
+import gc
 import os
 import pickle
 import select
@@ -282,6 +283,18 @@ def _on_timer(signum, frame):
 
 
 def python_outcome(MR, data):
+    """A hang of the decoder is deterministic; a full garbage collection of the worker (seen: 0.3-0.5 s of CPU for 40k
+    objects on a loaded VM) that happens to start inside the window is not.  So a time-out is only reported when the same
+    input times out again right after a collection done outside the window; out["retried"] records the second attempt."""
+    out = _python_attempt(MR, data)
+    if out["crash"]:
+        gc.collect()
+        out = _python_attempt(MR, data)
+        out["retried"] = True
+    return out
+
+
+def _python_attempt(MR, data):
     signal.setitimer(signal.ITIMER_VIRTUAL, PY_CPU_S)
     try:
         out = W.outcome_of(MR, data)
@@ -370,6 +383,8 @@ def run_inputs(acc, inputs):
                 if co is None:
                     raise HarnessError(f"ASan worker lost input {label}")
                 acc.distinct("distinct", h64(d))
+                if po.get("retried"):
+                    acc.count("python_timeout_second_attempts")
                 judge(acc, "python", label, d, po)
                 judge(acc, "cython", label, d, co)
     finally:
